@@ -585,6 +585,9 @@ func (fx *FnExec) execFrom(st *State, b *ssa.BasicBlock, idx int, k cont, depth 
 					delete(st.active, lp)
 				}
 			}
+			if b.Parent() == fx.fn && depth == 0 {
+				fx.returnGhosts(st, in)
+			}
 			k(st, res)
 			return
 		case *ssa.Panic:
@@ -750,7 +753,8 @@ func (fx *FnExec) resolveLocal(st *State, lp *Loop, name string) (Val, bool) {
 	// innermost scope at pos
 	var scope *types.Scope
 	for n, sc := range info.Scopes {
-		if n.Pos() <= pos && pos <= n.End() && sc.Contains(pos) {
+		_ = n
+		if sc.Contains(pos) {
 			if scope == nil || (scope.Pos() <= sc.Pos() && sc.End() <= scope.End()) {
 				scope = sc
 			}
@@ -962,6 +966,121 @@ func (fc *FuncContract) ghostSort(name string) string {
 	return "(Array Int Int)"
 }
 
+// returnGhosts executes "atreturn ghost G[...] = e" clauses at a return of the function under verification.
+func (fx *FnExec) returnGhosts(st *State, ret *ssa.Return) {
+	fc := fx.fc
+	if fc == nil {
+		return
+	}
+	has := false
+	for _, gu := range fc.GhostUpd {
+		if gu.Loop == -1 {
+			has = true
+		}
+	}
+	if !has {
+		return
+	}
+	env := fx.envFor(st, fx.fn, nil)
+	env.local = func(name string) (Val, bool) { return fx.resolveAtReturn(st, ret, name) }
+	for _, gu := range fc.GhostUpd {
+		if gu.Loop != -1 {
+			continue
+		}
+		key := "fg:" + fc.Key + ":" + gu.Name
+		cur, ok := st.ghost[key]
+		if !ok {
+			continue
+		}
+		var iv, vv Val
+		okTr := func() (ok bool) {
+			defer func() {
+				if r := recover(); r != nil {
+					if _, isT := r.(trErr); isT {
+						ok = false
+						return
+					}
+					panic(r)
+				}
+			}()
+			if gu.Idx != nil {
+				iv = env.tr(gu.Idx)
+			}
+			vv = env.tr(gu.Val)
+			return true
+		}()
+		if !okTr {
+			if os.Getenv("GOVC_DEBUG") != "" {
+				fmt.Fprintf(os.Stderr, "atreturn ghost %s: expression not available\n", gu.Name)
+			}
+			continue // the expression's locals are not defined on this return path
+		}
+		n := fx.eng.fresh(st, "ghost_"+gu.Name, fc.ghostSort(gu.Name))
+		if gu.Idx != nil {
+			st.assume("(= " + n + " " + store(cur, iv.T, vv.T) + ")")
+		} else {
+			st.assume("(= " + n + " " + vv.T + ")")
+		}
+		st.ghost[key] = n
+	}
+}
+
+// resolveAtReturn: value of a source-level local at a return statement.
+func (fx *FnExec) resolveAtReturn(st *State, ret *ssa.Return, name string) (Val, bool) {
+	fn := ret.Parent()
+	info := fx.eng.typesInfo(fn)
+	if info == nil || !ret.Pos().IsValid() {
+		return Val{}, false
+	}
+	pos := ret.Pos()
+	var scope *types.Scope
+	for n, sc := range info.Scopes {
+		_ = n
+		if sc.Contains(pos) {
+			if scope == nil || (scope.Pos() <= sc.Pos() && sc.End() <= scope.End()) {
+				scope = sc
+			}
+		}
+	}
+	if scope == nil {
+		return Val{}, false
+	}
+	_, obj := scope.LookupParent(name, pos)
+	tv, ok := obj.(*types.Var)
+	if os.Getenv("GOVC_DEBUG") != "" {
+		fmt.Fprintf(os.Stderr, "resolveAtReturn %s: scope=%v obj=%v\n", name, scope != nil, obj)
+	}
+	if !ok || tv.Parent() == nil || tv.Parent() == tv.Pkg().Scope() {
+		return Val{}, false
+	}
+	var found Val
+	have := false
+	for _, b := range fn.Blocks {
+		if b != ret.Block() && !b.Dominates(ret.Block()) {
+			continue
+		}
+		for _, in := range b.Instrs {
+			if in == ssa.Instruction(ret) {
+				break
+			}
+			d, ok := in.(*ssa.DebugRef)
+			if !ok || d.Object() != tv || d.IsAddr {
+				continue
+			}
+			if c, isC := d.X.(*ssa.Const); isC {
+				if !have {
+					found, have = fx.eng.constVal(c.Value, c.Type()), true
+				}
+				continue
+			}
+			if v, ok := st.vals[d.X]; ok {
+				found, have = v, true
+			}
+		}
+	}
+	return found, have
+}
+
 // ghostUpdates executes the "loop k ghost G[idx] = val" clauses when the body of loop k is entered.
 func (fx *FnExec) ghostUpdates(st *State, lp *Loop) {
 	fc := fx.eng.contractOf(lp.fn)
@@ -970,7 +1089,7 @@ func (fx *FnExec) ghostUpdates(st *State, lp *Loop) {
 	}
 	env := fx.loopEnv(st, lp)
 	for _, gu := range fc.GhostUpd {
-		if gu.Loop != lp.ordinal {
+		if gu.Loop != lp.ordinal || gu.Loop < 0 {
 			continue
 		}
 		key := "fg:" + fc.Key + ":" + gu.Name
